@@ -210,3 +210,142 @@ def append_counts(body, name):
     if live is None:
         return None
     return live | done
+
+
+def inline_single_return_hook(mod, skip=()):
+    """call_hook that inlines module-level functions of ``mod`` whose body is a single return statement (helpers, thin wrappers).
+
+    Decorators are ignored here (a caching decorator is judged by the cache rule, not by the value analysis)."""
+    import ast as _ast
+    from ..symex import Ev
+
+    def hook(ev, callee, args, kwargs, node):
+        ca = callee.as_atom()
+        if not ca or ca[0] != "name":
+            return None
+        name = ca[1].split(".")[-1]
+        if name in skip:
+            return None
+        fn = mod.funcs.get(name)
+        if fn is None or fn is getattr(ev, "func", None):
+            return None
+        body = [s for s in fn.body if not (isinstance(s, _ast.Expr) and isinstance(s.value, _ast.Constant))]
+        if len(body) != 1 or not isinstance(body[0], _ast.Return) or body[0].value is None:
+            return None
+        params = [a.arg for a in fn.args.args]
+        if len(args) > len(params) or fn.args.vararg or fn.args.kwarg:
+            return None
+        bind = dict(zip(params, args))
+        for k, v in (kwargs or ()):
+            if k not in params or k in bind:
+                return None
+            bind[k] = v
+        if set(bind) != set(params):
+            # defaults
+            defaults = fn.args.defaults
+            for p, d in zip(params[len(params) - len(defaults):], defaults):
+                if p not in bind:
+                    bind[p] = Ev([_ast.Return(value=d)], mod.ctx).run().returns[0].value
+            if set(bind) != set(params):
+                return None
+        sub = Ev([body[0]], mod.ctx, params=bind, call_hook=hook)
+        sub.run()
+        return sub.returns[0].value
+    return hook
+
+
+def returns_mutable(repo, mod, term, depth=0):
+    """True: the term is a fresh-or-shared mutable container (ndarray, list, dict); False: immutable; None: unknown."""
+    from ..symex import obj_init
+    a = term.as_atom()
+    if term.const_value() is not None:
+        return False
+    if a is None:
+        return None
+    tag = a[0]
+    if tag in ("str", "fstr", "const", "tuple"):
+        if tag == "tuple":
+            sub = [returns_mutable(repo, mod, x, depth) for x in a[1]]
+            return True if any(s for s in sub) else (False if all(s is False for s in sub) else None)
+        return False
+    if tag == "obj":
+        return True
+    if tag in ("comp", "dict", "list", "set"):
+        return True
+    if tag == "ite":
+        sub = [returns_mutable(repo, mod, a[2], depth), returns_mutable(repo, mod, a[3], depth)]
+        return True if any(s for s in sub) else (False if all(s is False for s in sub) else None)
+    if tag == "call":
+        cn = call_name(a) or ""
+        if cn in ("int", "float", "str", "bool", "len", "tuple", "frozenset", "complex", "round", "abs", "hash"):
+            return False
+        if cn.startswith("numpy.") and cn not in ("numpy.float64", "numpy.float32", "numpy.int32", "numpy.int64", "numpy.isclose"):
+            return True
+        if cn in ("list", "dict", "set", "sorted", ".copy", ".astype", ".reshape", "collections.defaultdict", "collections.OrderedDict"):
+            return True
+        if depth > 3:
+            return None
+        # dispatch through a module-level registry  X[key](...)
+        callee = a[1].as_atom()
+        targets = []
+        if callee and callee[0] == "sub" and callee[1].as_atom() and callee[1].as_atom()[0] == "name":
+            node = mod.toplevel_assign(callee[1].as_atom()[1].split(".")[-1])
+            import ast as _ast
+            if isinstance(node, _ast.Dict):
+                targets = [v.id for v in node.values if isinstance(v, _ast.Name)]
+        elif callee and callee[0] == "name":
+            targets = [callee[1]]
+        res = []
+        for t in targets:
+            short = t.split(".")[-1]
+            if "." not in t and short in mod.funcs and short not in mod.ctx.alias:
+                fev = mod.ev(short)
+                res += [returns_mutable(repo, mod, r.value, depth + 1) for r in fev.returns if r.value is not None]
+                continue
+            full = t if t.startswith("chmpy.") else mod.ctx.alias.get(short, t)
+            hit = repo.resolve_symbol(full) if hasattr(repo, "resolve_symbol") else None
+            if hit:
+                m2, q2 = hit
+                try:
+                    fev = m2.ev(q2)
+                except Exception:
+                    res.append(None)
+                    continue
+                res += [returns_mutable(repo, m2, r.value, depth + 1) for r in fev.returns if r.value is not None]
+            else:
+                res.append(None)
+        if res:
+            return True if any(r for r in res) else (False if all(r is False for r in res) else None)
+    return None
+
+
+def specialise(term, cond_key, truth):
+    """Rewrite ``term`` under the assumption that the condition with key ``cond_key`` has value ``truth``:
+    ite atoms on that condition (or its negation) collapse to a branch, and comparisons of two constants fold."""
+    from ..symex import find_atoms as _fa
+    from ..poly import P as _P
+
+    def value_of(c):
+        k = c.key()
+        if k == cond_key:
+            return truth
+        a = c.as_atom()
+        if a and a[0] == "not":
+            v = value_of(a[1])
+            return None if v is None else (not v)
+        if a and a[0] in ("eq", "ne", "lt", "le", "is", "isnot") and len(a) == 3:
+            x, y = a[1].const_value(), a[2].const_value()
+            if x is not None and y is not None:
+                return {"eq": x == y, "ne": x != y, "lt": x < y, "le": x <= y, "is": x == y, "isnot": x != y}[a[0]]
+        return None
+    cur = term
+    for _ in range(8):
+        mapping = {}
+        for a in _fa(cur, lambda a: a[0] == "ite"):
+            v = value_of(a[1])
+            if v is not None:
+                mapping[a] = a[2] if v else a[3]
+        if not mapping:
+            return cur
+        cur = cur.subs(mapping)
+    return cur
